@@ -104,7 +104,8 @@ def check_stream(rec: Rec, case: dict) -> None:
             quiet, qc = (one, ()) if one.error is None else (o, () if cuts == "bytewise" else cuts)
             if cuts == "bytewise" and quiet is o:
                 qc = tuple(range(1, n))
-            if quiet.eof_error is None and only_later(quiet, qc):
+            # (a quiet run that fails at end-of-stream has not accepted the stream either: it was still inside a message)
+            if quiet.eof_error is not None or only_later(quiet, qc):
                 rec.label("reject-only-later")
                 return
             raise Violation(
